@@ -124,6 +124,8 @@ def run : Handler := fun req => do
         | .single k => !identOk k.variant
         | .dispatch cs => cs.any fun (_, k) => !identOk k.variant) || !identOk mch.fallback.variant
     | none => false
+  -- the panic comes from building the ENUM: every variant counts, also the ones the chain never reaches
+  let modelBadIdent := modelBadIdent || (variantsOf responses).any fun v => !identOk v.name
   let matched := matched || (modelBadIdent && (impl.getObjVal? "panic").toOption.isSome)
   let judge := Id.run do
     if (impl.getObjVal? "panic").toOption.isSome then
